@@ -6,7 +6,8 @@
    Every cb must be the callback of an enabled ExecExpr / StepExpr step of Eval.tla; the
    engine's internal steps are silent.  The one free choice of the specification, the order
    Context.Roots() returns, is bound to the order the trace shows (first DSL callback of each
-   root) and must be one of the admissible dependency orders. *)
+   root) and must be one of the admissible dependency orders; a root none of whose expressions
+   is a Source shows its place only in the later phases (every admissible place is tried). *)
 EXTENDS Eval, Json
 TraceLog == ndJsonDeserialize("trace.ndjson")
 VARIABLES l,     \* next trace line
@@ -14,13 +15,22 @@ VARIABLES l,     \* next trace line
           c0     \* line of the reset event of the current case
 tvars == <<vars, l, ret, c0>>
 
-NoCfg == [reg |-> <<>>, late |-> <<>>, deps |-> [r \in Roots |-> {}], beh |-> [r \in Roots |-> <<"plain">>]]
+NoCfg == [reg |-> <<>>, late |-> <<>>, deps |-> [r \in Roots |-> {}], beh |-> [r \in Roots |-> <<"plain">>],
+          beh2 |-> [r \in Roots |-> <<>>], rb |-> [r \in Roots |-> "plain"]]
 ConvCfg(j) == [reg |-> j.reg, late |-> j.late,
                deps |-> [r \in Roots |-> Range(j.deps[r])],
-               beh |-> [r \in Roots |-> j.beh[r]]]
+               beh |-> [r \in Roots |-> j.beh[r]],
+               beh2 |-> [r \in Roots |-> j.beh2[r]],
+               rb |-> [r \in Roots |-> j.rb[r]]]
+\* the behaviours of a case are those the specification knows
+KnownCfg(c) == \A r \in Roots : /\ c.rb[r] \in RootToks
+                                /\ \A i \in 1..Len(c.beh[r]) : c.beh[r][i] \in AllToks
+                                /\ \A i \in 1..Len(c.beh2[r]) : c.beh2[r][i] \in AllToks \ {"append", "appendsame", "reg"}
 
 \* between two cases every variable of Eval is back to one idle value
 NoSets == [r \in Roots |-> <<NoCfg.beh[r], <<>> >>]
+\* q lists the roots of Range(q) in the order p has them
+Agrees(p, q) == SelectSeq(p, LAMBDA x : x \in Range(q)) = q
 TraceInit == /\ TLCSet(1, 1) /\ l = 1 /\ ret = TRUE /\ c0 = 0
              /\ cfg = NoCfg /\ registered = <<>> /\ sets = NoSets
              /\ order = <<>> /\ phase = "done" /\ ri = 1 /\ si = 1 /\ ei = 1
@@ -41,15 +51,16 @@ PeekFrom(k, S, acc) ==
                                THEN Append(acc, e.root) ELSE acc)
 
 TReset == /\ IsEvent("reset") /\ phase = "done" /\ ret /\ c0' = l
-          /\ cfg' = ConvCfg(TraceLog[l].cfg)
+          /\ cfg' = ConvCfg(TraceLog[l].cfg) /\ KnownCfg(cfg')
           /\ registered' = cfg'.reg
-          /\ sets' = [r \in Roots |-> <<cfg'.beh[r], <<>> >>]
+          /\ sets' = [r \in Roots |-> <<cfg'.beh[r], cfg'.beh2[r]>>]
           /\ order' = <<>> /\ phase' = "order" /\ ri' = 1 /\ si' = 1 /\ ei' = 1
           /\ log' = <<>> /\ errs' = {} /\ result' = "none" /\ ret' = FALSE
 TOrder == /\ ComputeOrder /\ UNCHANGED <<l, ret, c0>>
-          /\ phase' = "dsl" => order' = PeekFrom(l, Range(registered), <<>>)
+          /\ phase' = "dsl" => Agrees(order', PeekFrom(l, Range(registered), <<>>))
 TEndDSL == /\ EndDSL /\ UNCHANGED <<l, ret, c0>>
-           /\ order' # order => order' = order \o PeekFrom(l, Range(registered) \ Range(order), <<>>)
+           /\ order' # order => Agrees(SubSeq(order', Len(order) + 1, Len(order')),
+                                        PeekFrom(l, Range(registered) \ Range(order), <<>>))
 TCb == /\ IsEvent("cb") /\ Callback /\ UNCHANGED <<ret, c0>>
        /\ LET e == TraceLog[l] IN log'[Len(log')] = <<e.phase, e.root, e.set, e.idx>>
 TSilent == Internal /\ UNCHANGED <<l, ret, c0>>
